@@ -142,10 +142,12 @@ func (g *engine) minimise(p History, obs string) History {
 }
 
 // attribute turns the failures of a history into violations keyed by a
-// minimal failing history. exhaustive=true means every shorter history has
-// already been run (breadth-first enumeration), so a failing prefix without
-// a known failing subsequence is itself minimal.
-func (g *engine) attribute(h History, o *Outcome, draws int, exhaustive bool) {
+// minimal failing history: a known minimal failing history of the observable
+// that is a subsequence of the failing prefix, else the result of minimising
+// the prefix by re-execution (which also makes the key independent of a
+// shorter history having escaped detection by an unlucky series of random
+// handler picks).
+func (g *engine) attribute(h History, o *Outcome, draws int) {
 	for _, f := range o.Failures {
 		p := h[:f.Step+1]
 		id := p.String() + "|" + f.Obs
@@ -155,15 +157,16 @@ func (g *engine) attribute(h History, o *Outcome, draws int, exhaustive bool) {
 		g.done[id] = true
 		m := g.known(p, f.Obs)
 		if m == nil {
-			if exhaustive {
-				m = p.Canon()
-			} else {
-				m = g.minimise(p, f.Obs).Canon()
-				if k := g.known(m, f.Obs); k != nil {
-					m = k
-				}
+			m = p
+			if len(p) > 1 {
+				m = g.minimise(p, f.Obs)
 			}
-			g.minimal[f.Obs] = append(g.minimal[f.Obs], m)
+			m = m.Canon()
+			if k := g.known(m, f.Obs); k != nil {
+				m = k
+			} else {
+				g.minimal[f.Obs] = append(g.minimal[f.Obs], m)
+			}
 		}
 		key := m.String() + ":" + f.Obs
 		g.r.Violate(key, fmt.Sprintf("%s [history %s, step %d]", f.What, h, f.Step+1),
@@ -183,7 +186,7 @@ func randomHistory(rng *rand.Rand, minLen, maxLen int) History {
 func setup(r *mon.Run) {
 	r.Rule = "Histories over {RegLocal, RegConn(b1|b2|b3|bc), DropConn(b1|b2|b3|bc|unknown)}: b1,b2 serve service A (also served locally), b3 service B, " +
 		"bc service C whose rule collides with A (registration error path). Exhaustive up to a length, random beyond. After every step every method is requested " +
-		"6x over HTTP (each binding: path variable, body, implicit) and 6x over gRPC; the answering tag must be live in the sequential model, Unimplemented/NotFound iff " +
+		"over HTTP (every binding - path variable, body, implicit - at least twice, at least 6 requests) and 6x over gRPC; the answering tag must be live in the sequential model, Unimplemented/NotFound iff " +
 		"none is live; return values of RegisterConn/DropConn are compared with the model. distinct = (operation kind, model state after the step)."
 	r.Floor = 30
 	r.Assume("the tag stamped into a reply identifies the back-end that served the request")
@@ -246,7 +249,7 @@ func RunC11(r *mon.Run) {
 		outs := g.runAll(hs, Draws)
 		for i, h := range hs {
 			g.account(h, outs[i])
-			g.attribute(h, outs[i], Draws, true)
+			g.attribute(h, outs[i], Draws)
 		}
 	}
 	r.Set("exhaustive_histories", total)
@@ -259,7 +262,7 @@ func RunC11(r *mon.Run) {
 	outs := g.runAll(hs, Draws)
 	for i, h := range hs {
 		g.account(h, outs[i])
-		g.attribute(h, outs[i], Draws, false)
+		g.attribute(h, outs[i], Draws)
 	}
 	r.Set("random_histories", len(hs))
 	var mins []string
